@@ -180,7 +180,7 @@ fn run(ctx: &mut Ctx) {
 
     let total = ctx.tier.pick(30_000, 500_000);
     let max_ops = ctx.tier.pick(5, 10);
-    let strat = move || case_strategy(&["boundary", "boundary", "marks", "clusters", "repeat", "cased", "digits", "space"], true, W_DEFAULT, max_ops, 6, fix);
+    let strat = move || case_strategy(&["boundary", "boundary", "marks", "clusters", "repeat", "cased", "digits", "space", "metamod", "metamod", "backslash", "meta"], true, W_DEFAULT, max_ops, 6, fix);
     ctx.generated("gen", &strat, total, &|s, c, st| {
         count_pool(c, st);
         case_fn(s, c, st)
